@@ -27,7 +27,8 @@ SCORES = [1.0, 0.5]
 EVENTS = [(h, s) for h in STRINGS for s in SCORES]
 N_MAIN = len(EVENTS)
 TINY = 1e-18                                      # a hypothesis ~41 nats below the best one: its arcs vanish next to 1.0 in float64
-EVENTS += [(h, TINY) for h in STRINGS]            # only used by the 'extreme' sub-sweep
+TINY2 = 1e-200                                    # ~460 nats below: products of two such arcs underflow to exactly 0.0
+EVENTS += [(h, TINY) for h in STRINGS] + [(h, TINY2) for h in STRINGS]            # only used by the 'extreme' sub-sweep
 BOUNDS = {'quick': dict(depth=3), 'thorough': dict(depth=4)}
 BOUNDS['replay'] = BOUNDS['quick']
 EPS = 1e-9
@@ -292,7 +293,7 @@ def check_history(case, ctx, hist):
         return
     ctx.state(canon(after))
     desc = f'history {hist}: before={before} after={after}'
-    if any(sc == TINY for _, sc in hist):
+    if any(sc in (TINY, TINY2) for _, sc in hist):
         ctx.tag('vanishing-score-hypothesis')
 
     inc, w = included(before, after) if before else (True, None)
